@@ -58,7 +58,8 @@ def run(ctx):
     st = explore(nat, ["ans"], 0, sink, stats=st, name="natural-landscapes")
     # (f) option settings that keep the default incumbent-update policy (b=0 quick / b=1 thorough)
     variants = [{"noise_size": 1e-3}, {"noise_size": 1.0}, {"tol_fun": 1e-2}, {"accelerate_mesh": False}, {"nonlinear_scaling": False}, {"max_iter": 3},
-                {"tol_stall_iters": 2}, {"fun_eval_start": 4}, {"n_search_iter": 1}, {"tol_noise": 0.0}, {"tol_fun": 1e-310}]
+                {"tol_stall_iters": 2}, {"fun_eval_start": 4}, {"n_search_iter": 1}, {"tol_noise": 0.0}, {"tol_fun": 1e-310},
+                {"uncertainty_handling": False}, {"uncertainty_handling": 0}]
     ov = [job(D, g, target=t, opts=dict(v, max_fun_evals=35 + 10 * D), seed=seeds[0], base=b) for D in (1, 2) for g in ("lin", "log") for v in variants
           for t, b in (("adv", "F"), ("adv", "S4"), ("sphere_in", "F"))]
     st = explore(ov, ["ans"], 0 if q else 1, sink, stats=st, name="option-variants")
